@@ -350,6 +350,8 @@ class Gen(object):
             opts += ["break", "continue"]
         if self.in_func is not None and depth > 0:
             opts += ["return"]
+        if "no-output" in self.features:
+            opts = [o for o in opts if o not in ("print", "oos", "emit1", "filter", "callsub")] or ["decl"]
         k = self.pick(opts)
         return getattr(self, "s_" + k)(depth)
 
@@ -934,3 +936,463 @@ def _p_udf_fatal(mlr):
 KNOWN = {
     "fatal-error-inside-udf-becomes-error-value": {"match": _k_udf_fatal, "probe": _p_udf_fatal},
 }
+
+
+# --------------------------------------------------------------------------------------------
+# parse shapes vs the documented precedence table (evaluation-free)
+
+SHAPE_BINOPS = [op for op in md.PREC if op not in ("?:", "unary", ".+", ".-", ".*", "./")]
+SHAPE_UNOPS = ["!", "~", "-", "+"]
+
+
+def sexpr(e):
+    """the parenthesised form `mlr put -D` prints for an expression tree"""
+    if e[0] == "bin":
+        return "(%s %s %s)" % (e[1], sexpr(e[2]), sexpr(e[3]))
+    if e[0] == "un":
+        return "(%s %s)" % (e[1], sexpr(e[2]))
+    if e[0] == "tern":
+        return "(? %s %s %s)" % (sexpr(e[1]), sexpr(e[2]), sexpr(e[3]))
+    if e[0] == "field":
+        return "$" + e[1]
+    raise ValueError(e[0])
+
+
+def flat_expected(a_op, b_op):
+    """tree the table gives for `$x1 A $x2 B $x3`"""
+    x1, x2, x3 = ("field", "x1"), ("field", "x2"), ("field", "x3")
+    pa, pb = md.PREC[a_op], md.PREC[b_op]
+    if pa > pb or (pa == pb and a_op not in md.RIGHT_ASSOC):
+        return ("bin", b_op, ("bin", a_op, x1, x2), x3)
+    return ("bin", a_op, x1, ("bin", b_op, x2, x3))
+
+
+def shape_cases_exhaustive():
+    x = [("field", "x%d" % i) for i in range(1, 6)]
+    out = []
+    for a in SHAPE_BINOPS:
+        for b in SHAPE_BINOPS:
+            out.append(("$x1 %s $x2 %s $x3" % (a, b), flat_expected(a, b), "binary-pair"))
+    for u in SHAPE_UNOPS:
+        for b in SHAPE_BINOPS:
+            # a prefix operator in front of `$x1 B $x2`
+            if md.PREC["unary"] > md.PREC[b]:
+                exp = ("bin", b, ("un", u, x[0]), x[1])
+            else:
+                exp = ("un", u, ("bin", b, x[0], x[1]))
+            out.append(("%s $x1 %s $x2" % (u, b), exp, "unary-then-binary"))
+            if md.PREC[b] < md.PREC["unary"]:
+                out.append(("$x1 %s %s $x2" % (b, u), ("bin", b, x[0], ("un", u, x[1])), "binary-then-unary"))
+    for b in SHAPE_BINOPS:
+        out.append(("$x1 %s $x2 ? $x3 : $x4" % b, ("tern", ("bin", b, x[0], x[1]), x[2], x[3]), "ternary"))
+        out.append(("$x1 ? $x2 %s $x3 : $x4" % b, ("tern", x[0], ("bin", b, x[1], x[2]), x[3]), "ternary"))
+        out.append(("$x1 ? $x2 : $x3 %s $x4" % b, ("tern", x[0], x[1], ("bin", b, x[2], x[3])), "ternary"))
+    out.append(("$x1 ? $x2 : $x3 ? $x4 : $x5", ("tern", x[0], x[1], ("tern", x[2], x[3], x[4])), "ternary"))
+    out.append(("$x1 ? $x2 ? $x3 : $x4 : $x5", ("tern", x[0], ("tern", x[1], x[2], x[3]), x[4]), "ternary"))
+    return out
+
+
+_AST_LINE = re.compile(r'^( *)"(.*)" \[tt:(\S+)\] \[nt:(\S+)\]$')
+
+
+def parse_ast_listing(text):
+    """`put -v` prints one node per line, children indented by 4 more spaces. Returns the root as [token, nodetype, children].
+    Parenthesized nodes (which only record that the source had parentheses) are replaced by their single child."""
+    root = None
+    stack = []
+    for ln in text.split("\n"):
+        m = _AST_LINE.match(ln)
+        if not m:
+            continue
+        lvl = len(m.group(1)) // 4
+        node = [m.group(2), m.group(4), []]
+        if lvl == 0:
+            root = node
+            stack = [node]
+            continue
+        del stack[lvl:]
+        stack[-1][2].append(node)
+        stack.append(node)
+
+    def strip(n):
+        kids = [strip(k) for k in n[2]]
+        if n[1] == "Parenthesized" and len(kids) == 1:
+            return kids[0]
+        return [n[0], n[1], kids]
+    return strip(root) if root else None
+
+
+def ast_sexpr(n):
+    if not n[2]:
+        return n[0]
+    return "(" + n[0] + " " + " ".join(ast_sexpr(k) for k in n[2]) + ")"
+
+
+def run_shapes(ctx, cases):
+    """cases: list of (text, expected tree, label). One invocation per batch; returns the parsed shape of each right-hand side."""
+    prog = "".join("$y%d = %s;\n" % (i, t) for i, (t, _, _) in enumerate(cases))
+    res = ctx.mlr(["-n", "put", "-v", "-X", prog], timeout=30)
+    if res.rc != 0:
+        if len(cases) == 1:
+            return [None]
+        h = len(cases) // 2
+        return run_shapes(ctx, cases[:h]) + run_shapes(ctx, cases[h:])
+    out = res.out.decode("utf-8", "replace")
+    out = out[out.index("\nAST:\n") + 6:] if "\nAST:\n" in out else out
+    root = parse_ast_listing(out)
+    got = [None] * len(cases)
+    for st_ in (root[2] if root else []):
+        if st_[0] == "=" and len(st_[2]) == 2 and st_[2][0][0].startswith("$y"):
+            got[int(st_[2][0][0][2:])] = ast_sexpr(st_[2][1])
+    return got
+
+
+def judge_shapes(ctx, cases):
+    got = run_shapes(ctx, cases)
+    for (text, exp, label), g in zip(cases, got):
+        ctx.case(("shape", text), True, labels=("shape:" + label,), sample={"expression": text, "parsed": g} if len(ctx.samples) < 3 else None)
+        case = {"text": text, "expected": sexpr(exp)}
+        if g is None:
+            ctx.guard(ctx.fail, case, "`%s` does not parse; the documented precedence table makes it %s" % (text, sexpr(exp)))
+        elif g != sexpr(exp):
+            ctx.guard(ctx.fail, case, "`%s` parses as %s; the documented precedence table makes it %s" % (text, g, sexpr(exp)))
+        if len(ctx.violations) >= 5:
+            return
+
+
+def sub_shapes_exhaustive(ctx):
+    cases = shape_cases_exhaustive()
+    mine = [c for i, c in enumerate(cases) if i % ctx.nshards == ctx.shard]
+    for i in range(0, len(mine), 150):
+        judge_shapes(ctx, mine[i:i + 150])
+
+
+def replay_shape(ctx, case):
+    got = run_shapes(ctx, [(case["text"], None, "replay")])[0]
+    ctx.case(("shape", case["text"]), True)
+    if got != case["expected"]:
+        ctx.fail(case, "`%s` parses as %s; the documented precedence table makes it %s" % (case["text"], got, case["expected"]))
+
+
+@st.composite
+def shape_tree(draw, depth=0):
+    k = draw(st.integers(0, 9))
+    if depth >= 4 or k < 3:
+        return ("field", "x%d" % draw(st.integers(1, 9)))
+    if k < 8:
+        return ("bin", draw(st.sampled_from(SHAPE_BINOPS)), draw(shape_tree(depth + 1)), draw(shape_tree(depth + 1)))
+    if k == 8:
+        return ("un", draw(st.sampled_from(SHAPE_UNOPS)), draw(shape_tree(depth + 1)))
+    return ("tern", draw(shape_tree(depth + 1)), draw(shape_tree(depth + 1)), draw(shape_tree(depth + 1)))
+
+
+def body_shape_random(ctx, case):
+    trees = [md_tuple(t) for t in case["trees"]]
+    cases = [(md.render_expr(t, minimal=True), t, "random-tree") for t in trees]
+    got = run_shapes(ctx, cases)
+    for (text, exp, _), g in zip(cases, got):
+        nt = exp[0] != "field"
+        ctx.case(("shape", text), nt, labels=("shape:random-tree",))
+        if g != sexpr(exp):
+            ctx.fail({"trees": [exp]}, "`%s` (minimal parentheses by the documented table) parses as %s instead of %s" % (text, g, sexpr(exp)))
+
+
+def md_tuple(t):
+    return tuple(md_tuple(x) if isinstance(x, (list, tuple)) else x for x in t)
+
+
+def sub_shapes_random(ctx):
+    ctx.hyp(st.fixed_dictionaries({"trees": st.lists(shape_tree(), min_size=20, max_size=60)}), lambda c: body_shape_random(ctx, c), ctx.n(100, 2500), shrink_budget=300)
+
+
+SUBCHECKS += [
+    Sub("parse_shape_operator_pairs", sub_shapes_exhaustive, replay_shape, shards={"quick": 4, "thorough": 4}, exhaustive=True,
+        rule="every ordered pair of the 26 binary operators of the documented table as `$x1 A $x2 B $x3`, every prefix operator before and after every binary operator, the ternary operator against every "
+             "binary operator in each of its three positions: the AST printed by `put -D -X` must be the tree the table's precedence and associativity give"),
+    Sub("parse_shape_random_trees", sub_shapes_random, body_shape_random, shards={"quick": 2, "thorough": 8},
+        rule="random operator trees up to depth 4 rendered with the minimal parentheses the documented table requires parse back to the same tree"),
+]
+
+
+# --------------------------------------------------------------------------------------------
+# metamorphic relations (no reference model)
+
+def rename_locals(x, f, keep=()):
+    """alpha-renaming of every local name (declarations, uses, loop variables, parameters)"""
+    if isinstance(x, tuple) and x and isinstance(x[0], str) and x[0] in NODE_TAGS:
+        t = x[0]
+        if t == "local":
+            return ("local", f(x[1]))
+        if t == "decl":
+            return ("decl", x[1], f(x[2]), rename_locals(x[3], f))
+        if t == "fork":
+            return ("fork", f(x[1]), rename_locals(x[2], f), rename_locals(x[3], f))
+        if t == "forkv":
+            return ("forkv", f(x[1]), f(x[2]), rename_locals(x[3], f), rename_locals(x[4], f))
+        if t == "formulti":
+            return ("formulti", [f(n) for n in x[1]], f(x[2]), rename_locals(x[3], f), rename_locals(x[4], f))
+        if t == "funclit":
+            return ("funclit", [f(n) for n in x[1]], rename_locals(x[2], f))
+        if t in ("func",):
+            return ("func", x[1], [(f(pn), pt) for pn, pt in x[2]], x[3], rename_locals(x[4], f))
+        if t == "subr":
+            return ("subr", x[1], [(f(pn), pt) for pn, pt in x[2]], rename_locals(x[3], f))
+        if t in ("str", "int", "bool", "float", "field", "oos", "ctx"):
+            return x
+        if t == "call":
+            return ("call", x[1], rename_locals(x[2], f))
+        if t == "callsub":
+            return ("callsub", x[1], rename_locals(x[2], f))
+        if t == "emitf":
+            return x
+        return tuple([t] + [rename_locals(y, f) for y in x[1:]])
+    if isinstance(x, list):
+        return [rename_locals(y, f) for y in x]
+    if isinstance(x, tuple):
+        return tuple(rename_locals(y, f) for y in x)
+    return x
+
+
+def run_text(ctx, chain, recs, io=("--ijsonl", "--ojsonl")):
+    """chain: list of (verb args..., program text) tuples joined with then; programs go through -f files"""
+    d = vrun.newdir("m")
+    try:
+        argv = list(io)
+        for i, (verb, text) in enumerate(chain):
+            if i:
+                argv.append("then")
+            if text is None:
+                argv += verb
+            else:
+                path = os.path.join(d, "p%d.mlr" % i)
+                with open(path, "w") as f:
+                    f.write(text)
+                argv += verb + ["-f", path]
+        stdin = ("".join(md.to_json(MMap(r)) + "\n" for r in recs)).encode()
+        return ctx.mlr(argv, stdin=stdin, timeout=8 if ctx._shrinking else 30)
+    finally:
+        __import__("shutil").rmtree(d, ignore_errors=True)
+
+
+def same_outcome(ctx, case, a, b, what):
+    if a.panicked or b.panicked or a.timed_out or b.timed_out:
+        ctx.fail(case, "%s: crash or hang (rc %s / %s): %s %s" % (what, a.rc, b.rc, a.err[:200], b.err[:200]))
+    if (a.rc == 0) != (b.rc == 0):
+        ctx.fail(case, "%s: exit status %s vs %s\n%s\n%s" % (what, a.rc, b.rc, a.err[:300].decode("utf-8", "replace"), b.err[:300].decode("utf-8", "replace")))
+    if a.rc == 0 and a.out != b.out:
+        la, lb = a.out.decode("utf-8", "replace").split("\n"), b.out.decode("utf-8", "replace").split("\n")
+        i = 0
+        while i < min(len(la), len(lb)) and la[i] == lb[i]:
+            i += 1
+        ctx.fail(case, "%s: output line %d differs: %r vs %r" % (what, i + 1, la[i] if i < len(la) else "<end>", lb[i] if i < len(lb) else "<end>"))
+
+
+def body_alpha(ctx, case):
+    prog = normalize(case["prog"])
+    recs = [[tuple(kv) for kv in r] for r in case["recs"]]
+    try:
+        t1 = md.render_program(prog)
+        t2 = md.render_program(rename_locals(prog, lambda n: n + "_r"))
+        has_pat = any(s[0] in ("patact", "func", "subr", "begin", "end") for s in prog)
+        main = [s for s in prog if s[0] not in ("func", "subr", "begin", "end")]
+        rest = [s for s in prog if s[0] in ("func", "subr", "begin", "end")]
+        t3 = None
+        if not any(s[0] == "patact" for s in main):
+            t3 = md.render_program(rest + [("if", [(("bool", True), main)], None)])
+    except md.Unmodelled:
+        ctx.excluded["unrenderable"] += 1
+        return
+    a = run_text(ctx, [(["put"], t1)], recs)
+    b = run_text(ctx, [(["put"], t2)], recs)
+    labels = list(case.get("labels", []))
+    ctx.case(("alpha", t1, json.dumps(case["recs"])), a.rc == 0 and bool(a.out), labels=["relation:alpha-renaming"] + labels[:0],
+             sample={"program": t1[:600]} if len(ctx.samples) < 2 and len(t1) < 600 else None)
+    same_outcome(ctx, case, a, b, "alpha-renaming of all locals (x -> x_r) changes the behaviour\n--- program\n%s" % t1)
+    if t3 is not None:
+        c = run_text(ctx, [(["put"], t3)], recs)
+        ctx.case(("wrap", t1, json.dumps(case["recs"])), a.rc == 0 and bool(a.out), labels=["relation:wrap-main-in-if-true"])
+        same_outcome(ctx, case, a, c, "wrapping the main block in `if (true) {...}` changes the behaviour\n--- program\n%s" % t1)
+
+
+def sub_alpha(ctx):
+    ctx.hyp(program_case(), lambda c: body_alpha(ctx, c), ctx.n(600, 20000), shrink_budget=400)
+
+
+@st.composite
+def two_part_case(draw):
+    g1 = Gen(draw, FEATURES + ["no-output"])
+    a = [s for _ in range(draw(st.integers(1, 4))) for s in g1.stmt(0)]
+    g2 = Gen(draw, FEATURES + ["no-output"])
+    g2.tag = 100
+    b = [s for _ in range(draw(st.integers(1, 4))) for s in g2.stmt(0)]
+    recs = draw(st.lists(record_strategy(), min_size=1, max_size=5))
+    return {"a": a, "b": b, "recs": recs}
+
+
+def _uses(x, tags):
+    if isinstance(x, (tuple, list)):
+        if x and isinstance(x[0], str) and x[0] in tags:
+            return True
+        return any(_uses(y, tags) for y in x)
+    return False
+
+
+def body_then(ctx, case):
+    a, b = normalize(case["a"]), normalize(case["b"])
+    recs = [[tuple(kv) for kv in r] for r in case["recs"]]
+    # `put A then put B` == `put 'A; B'` needs: no record-stream side effects in A that B would see differently (emit, filter, print
+    # ordering across the two instances), no oosvars shared, B's locals renamed apart from A's
+    banned = {"emit1", "emit", "emitp", "emitf", "emitl", "filter", "print", "printn", "dump", "oos", "oosall", "patact"}
+    if _uses(a, banned) or _uses(b, {"oos", "oosall", "patact", "filter", "emit1"}):
+        ctx.excluded["parts with output statements or oosvars"] += 1
+        return
+    b = rename_locals(b, lambda n: n + "_b")
+    try:
+        ta, tb = md.render_program(a), md.render_program(b)
+    except md.Unmodelled:
+        return
+    x = run_text(ctx, [(["put"], ta), (["put"], tb)], recs)
+    y = run_text(ctx, [(["put"], ta + tb)], recs)
+    ctx.case(("then", ta, tb, json.dumps(case["recs"])), x.rc == 0, labels=["relation:put-A-then-put-B"], sample={"A": ta[:300], "B": tb[:300]} if len(ctx.samples) < 2 else None)
+    # printed text of instance B may interleave differently with records only if A prints: A has no prints here
+    same_outcome(ctx, case, x, y, "`put A then put B` differs from `put 'A; B'`\n--- A\n%s--- B\n%s" % (ta, tb))
+
+
+def sub_then(ctx):
+    ctx.hyp(two_part_case(), lambda c: body_then(ctx, c), ctx.n(500, 15000), shrink_budget=400)
+
+
+@st.composite
+def filter_case(draw):
+    g = Gen(draw, FEATURES)
+    cond = g.e_bool(0)
+    # tie the condition to the data so that it usually splits the stream
+    cond = ("bin", draw(st.sampled_from(["&&", "||", "^^"])), cond, ("bin", draw(st.sampled_from(["<", ">=", "!="])), ("field", "i"), ("int", draw(st.integers(-2, 8)))))
+    recs = draw(st.lists(record_strategy(), min_size=1, max_size=6))
+    return {"cond": cond, "recs": recs}
+
+
+def body_filter(ctx, case):
+    cond = normalize([case["cond"]])[0]
+    recs = [[tuple(kv) for kv in r] for r in case["recs"]]
+    try:
+        c = md.render_expr(cond)
+    except md.Unmodelled:
+        return
+    base = run_text(ctx, [(["filter"], c + "\n")], recs)
+    ctx.case(("filter", c, json.dumps(case["recs"])), base.rc == 0 and 0 < base.out.count(b"\n") < len(recs), labels=["relation:filter-equivalences"],
+             sample={"condition": c} if len(ctx.samples) < 2 else None)
+    if base.rc != 0:
+        return   # a non-boolean or failing condition: the equivalences are stated for boolean conditions
+    for what, chain in [("put 'filter C'", [(["put"], "filter " + c + ";\n")]),
+                        ("put -q 'C {emit1 $*}'", [(["put", "-q"], c + " {\n  emit1 $*;\n}\n")]),
+                        ("filter -x '!(C)'", [(["filter", "-x"], "!(" + c + ")\n")]),
+                        ("filter 'filter-less final bare boolean after an assignment'", [(["filter"], "var filter_probe_local = 1;\n" + c + "\n")]),
+                        ("put -q 'if (C) {emit1 $*}'", [(["put", "-q"], "if (" + c + ") {\n  emit1 $*;\n}\n")])]:
+        other = run_text(ctx, chain, recs)
+        same_outcome(ctx, case, base, other, "`filter C` differs from `%s` for C = %s" % (what, c))
+
+
+def sub_filter(ctx):
+    ctx.hyp(filter_case(), lambda c: body_filter(ctx, c), ctx.n(400, 10000), shrink_budget=300)
+
+
+GROUP_WORDS = ["pan", "eks", "wye", "zee"]
+
+
+@st.composite
+def emit_case(draw):
+    recs = []
+    for _ in range(draw(st.integers(1, 12))):
+        r = [("a", draw(st.sampled_from(GROUP_WORDS))), ("b", draw(st.sampled_from(GROUP_WORDS[:3]))), ("x", draw(st.integers(-5, 20)))]
+        if draw(st.integers(0, 4)) == 0:
+            r.append(("y", draw(st.integers(0, 9))))
+        recs.append(r)
+    return {"recs": recs, "which": draw(st.integers(0, 7))}
+
+
+def body_emit(ctx, case):
+    recs = [[tuple(kv) for kv in r] for r in case["recs"]]
+    w = case["which"]
+    io = ("--ijsonl", "--ojson")
+    rel = [
+        ("sum by a,b", '@sum[$a][$b] += $x;\nend {\n  emit @sum, "a", "b";\n}\n', ["stats1", "-a", "sum", "-f", "x", "-g", "a,b", "then", "rename", "x_sum,sum"]),
+        ("count by a", '@count[$a] += 1;\nend {\n  emit @count, "a";\n}\n', ["count", "-g", "a"]),
+        ("count by a,b", '@count[$a][$b] += 1;\nend {\n  emit @count, "a", "b";\n}\n', ["count", "-g", "a,b"]),
+        ("emitp full split", '@sum[$a][$b] += $x;\nend {\n  emitp @sum, "a", "b";\n}\n', ["stats1", "-a", "sum", "-f", "x", "-g", "a,b", "then", "rename", "x_sum,sum"]),
+        ("lashed sum and count", '@sum[$a][$b] += $x;\n@count[$a][$b] += 1;\nend {\n  emit (@sum, @count), "a", "b";\n}\n',
+         ["stats1", "-a", "sum,count", "-f", "x", "-g", "a,b", "then", "rename", "x_sum,sum,x_count,count"]),
+        ("max by a", '@max[$a] = max(@max[$a], $x);\nend {\n  emit @max, "a";\n}\n', ["stats1", "-a", "max", "-f", "x", "-g", "a", "then", "rename", "x_max,max"]),
+        ("first record by a", '@first[$a] = @first[$a] ?? $*;\nend {\n  emit @first, "a";\n}\n', ["head", "-n", "1", "-g", "a", "then", "reorder", "-f", "a"]),
+        ("sum by a, emit mapexpr", '@sum[$a] += $x;\nend {\n  emit mapsum({}, @sum), "a";\n}\n', None),
+    ][w % 8]
+    name, prog, verb = rel
+    a = run_text(ctx, [(["put", "-q"], prog)], recs, io=io)
+    ctx.case(("emit", name, json.dumps(case["recs"])), len(set(r[0][1] for r in recs)) > 1, labels=["relation:emit == " + name], sample={"program": prog, "verb": verb} if len(ctx.samples) < 2 else None)
+    if verb is None:
+        # emit of a map-valued expression with one name: the leaf level becomes the fields of one record per first-level key
+        b = run_text(ctx, [(["put", "-q"], '@sum[$a] += $x;\nend {\n  for (k, v in @sum) {\n    emit1 {"a": k, "sum": v};\n  }\n}\n')], recs, io=io)
+        # documented form for names exhausting the levels of a *named* variable; for a map expression the docs give no leaf name -> only crash/exit status compared
+        if a.panicked or a.timed_out:
+            ctx.fail(case, "emit mapexpr crashes")
+        return
+    b = run_text(ctx, [(verb, None)], recs, io=io)
+    if a.rc == 0 and b.rc == 0 and ", \"b\"" in prog:
+        # two grouping levels: emit walks the nested map (all b's of the first a, then the next a), the verb lists (a,b) pairs by first
+        # appearance; the same records in a different group order -> compared as multisets, field order inside each record kept
+        try:
+            ra = sorted(json.dumps(r) for r in json.loads(a.out.decode() or "[]", object_pairs_hook=lambda ps: ps))
+            rb = sorted(json.dumps(r) for r in json.loads(b.out.decode() or "[]", object_pairs_hook=lambda ps: ps))
+        except ValueError as e:
+            ctx.fail(case, "unparsable JSON output: %s" % e)
+        if ra != rb:
+            ctx.fail(case, "emit-by-names (%s) and the grouping verb `%s` give different records: %r vs %r\n%s" % (name, " ".join(verb), ra[:4], rb[:4], prog))
+        return
+    same_outcome(ctx, case, a, b, "emit-by-names (%s) differs from the grouping verb `%s`\n%s" % (name, " ".join(verb), prog))
+
+
+def sub_emit(ctx):
+    ctx.hyp(emit_case(), lambda c: body_emit(ctx, c), ctx.n(400, 12000), shrink_budget=300)
+
+
+def sub_presets(ctx):
+    """`put -s name=value` == `begin {@name = value}` with the value inferred like data; oosvars are private to each put in a chain"""
+    # "true"/"false" are left out: the help text says both "is like begin {@name = value}" (a boolean literal) and "subject to type-inferencing" (data "true" is a string)
+    vals = ["5", "-3", "0x10", "1.5", "abc", "", "1e3", "a b", "007", "0b11", "-0", "1_000", "Inf"]
+    recs = [[("i", 1)], [("i", 2)]]
+    for j, v in enumerate(vals):
+        if j % ctx.nshards != ctx.shard:
+            continue
+        a = run_text(ctx, [(["put", "-s", "v=" + v], '$t = typeof(@v);\n$w = @v;\n$z = @v . "|";\n')], recs)
+        # the reference for inference is the same text arriving as a field value
+        b = run_text(ctx, [(["put"], '$t = typeof($src);\n$w = $src;\n$z = $src . "|";\nunset $src;\n')], [r + [("src", v)] for r in recs], io=("--ijsonl", "--ojsonl", "-S")[:2])
+        ctx.case(("preset", v), True, labels=["relation:-s preset"])
+        # JSON string input is not type-inferred, so feed through dkvp instead
+        d = vrun.newdir("s")
+        try:
+            path = os.path.join(d, "p.mlr")
+            with open(path, "w") as f:
+                f.write('$t = typeof($src);\n$w = $src;\n$z = $src . "|";\nunset $src;\n')
+            b = ctx.mlr(["--idkvp", "--ifs", ";", "--ojsonl", "put", "-f", path], stdin=("".join("i=%d;src=%s\n" % (r[0][1], v) for r in recs)).encode())
+        finally:
+            __import__("shutil").rmtree(d, ignore_errors=True)
+        ctx.guard(same_outcome, ctx, {"value": v}, a, b, "`put -s v=%s` differs from the same text inferred from data" % v)
+    if ctx.shard == 0:
+        x = run_text(ctx, [(["put", "-q"], "@c += 1;\n@m[NR] = $i;\nend {\n  emit @c;\n}\n"), (["put"], '$seen = typeof(@c) . ":" . typeof(@m);\n@c = "second";\n')], recs)
+        ctx.case(("private-oosvars",), True, labels=["relation:oosvars private to each put"])
+        if x.rc != 0 or x.out.decode() != '{"c": 2, "seen": "absent:absent"}\n':
+            ctx.guard(ctx.fail, {"value": "private"}, "out-of-stream variables leak between two put instances of one chain: %r %r" % (x.out, x.err[:200]))
+
+
+SUBCHECKS += [
+    Sub("alpha_renaming_and_block_wrapping", sub_alpha, body_alpha, shards={"quick": 8, "thorough": 16}, cost=3,
+        rule="generated programs: renaming every local consistently, and wrapping the main block in if (true) {...}, must not change stdout or the exit status"),
+    Sub("put_then_put", sub_then, body_then, shards={"quick": 4, "thorough": 8}, cost=2,
+        rule="`put A then put B` == `put 'A; B'` for generated statement lists without output statements or oosvars, B's locals renamed apart"),
+    Sub("filter_equivalences", sub_filter, body_filter, shards={"quick": 4, "thorough": 8}, cost=2,
+        rule="for generated boolean conditions C: filter C == put 'filter C' == put -q 'C {emit $*}' == filter -x '!(C)' == put -q 'if (C) {emit1 $*}'"),
+    Sub("emit_by_names_vs_grouping_verbs", sub_emit, body_emit, shards={"quick": 4, "thorough": 8}, cost=2,
+        rule="emit/emitp/lashed emit by names after @v[$a][$b] accumulation == stats1/count/head -g with fields renamed, record for record and in the same group order"),
+    Sub("presets_and_private_oosvars", sub_presets, None, shards={"quick": 2, "thorough": 2}, exhaustive=True,
+        rule="put -s name=value infers the value like data; two put instances in one chain do not share out-of-stream variables"),
+]
